@@ -185,6 +185,86 @@ impl PoolImpl {
     pub open spec fn certified(&self, b: BlockId) -> bool {
         self.slot_states@.contains_key(b.0) && self.slot_states@[b.0].nf_or_stronger(b.1)
     }
+    // block c waits for a certificate of its parent p
+    pub open spec fn waits(&self, p: BlockId, c: BlockId) -> bool {
+        self.s2n_waiting_parent_cert@.contains_key(p) && self.s2n_waiting_parent_cert@[p]@.contains(c)
+    }
+    // block c was registered (Pool::add_block) in the state kept for its slot
+    pub open spec fn registered(&self, c: BlockId) -> bool {
+        self.slot_states@.contains_key(c.0) && self.slot_states@[c.0].parents@.contains_key(c.1)
+    }
+    // every waiting block is still registered in a slot state the pool keeps: what SlotState::notify_parent_certified
+    // (panic!("parent not known")) relies on when the parent's certificate arrives
+    pub open spec fn waiting_ok(&self) -> bool {
+        forall|p: BlockId, c: BlockId| #[trigger] self.waits(p, c) ==> self.registered(c)
+    }
+    // "once it is decided the node neither retains ... anything older": no slot state below the pruning watermark
+    pub open spec fn retained_ok(&self) -> bool {
+        forall|s: Slot| #[trigger] self.slot_states@.contains_key(s) ==> s.0 >= self.lo()
+    }
+    // the slot states of `self` extend those of `o`: the same slots, no registered block forgotten
+    pub open spec fn extends(&self, o: &PoolImpl) -> bool {
+        &&& forall|s: Slot| #[trigger] self.slot_states@.contains_key(s) <==> o.slot_states@.contains_key(s)
+        &&& forall|c: BlockId| #[trigger] o.registered(c) ==> self.registered(c)
+    }
+}
+
+// waiting_ok carries over to a state with the same waiting map that forgets no registered block
+pub proof fn lemma_waiting_ok_transfer(o: &PoolImpl, n: &PoolImpl)
+    requires
+        o.waiting_ok(),
+        n.s2n_waiting_parent_cert@ == o.s2n_waiting_parent_cert@,
+        forall|c: BlockId| #[trigger] o.registered(c) ==> n.registered(c),
+    ensures
+        n.waiting_ok(),
+        forall|p: BlockId, c: BlockId| #[trigger] n.waits(p, c) ==> o.waits(p, c),
+        forall|p: BlockId, c: BlockId| #[trigger] o.waits(p, c) ==> n.waits(p, c),
+{
+    assert forall|p: BlockId, c: BlockId| #[trigger] n.waits(p, c) implies n.registered(c) by { assert(o.waits(p, c)); }
+}
+// what add_valid_cert knows after telling the blocks waiting for `bid`: `m` is the state before, `n` after
+// PoolImpl::notify_waiting_children, `pre` the state the certificate was added to
+pub proof fn lemma_after_notify(pre: &PoolImpl, m: &PoolImpl, n: &PoolImpl, bid: BlockId)
+    requires
+        m.waiting_ok(), m.retained_ok(),
+        forall|p: BlockId, c: BlockId| #[trigger] m.waits(p, c) ==> pre.waits(p, c) && c.0.0 >= m.lo(),
+        forall|p: BlockId, c: BlockId| #[trigger] pre.waits(p, c) && c.0.0 >= m.lo() ==> m.waits(p, c),
+        // the postcondition of notify_waiting_children
+        n.finality_tracker == m.finality_tracker, n.extends(m), n.waiting_ok(),
+        !n.s2n_waiting_parent_cert@.contains_key(bid),
+        forall|p: BlockId| p != bid ==> (#[trigger] n.s2n_waiting_parent_cert@.contains_key(p) <==> m.s2n_waiting_parent_cert@.contains_key(p))
+            && (n.s2n_waiting_parent_cert@.contains_key(p) ==> n.s2n_waiting_parent_cert@[p] == m.s2n_waiting_parent_cert@[p]),
+        m.s2n_waiting_parent_cert@.contains_key(bid) ==> forall|k: int| 0 <= k < m.s2n_waiting_parent_cert@[bid]@.len() ==>
+            n.st((#[trigger] m.s2n_waiting_parent_cert@[bid]@[k]).0).parents@.contains_key(m.s2n_waiting_parent_cert@[bid]@[k].1)
+            && n.st(m.s2n_waiting_parent_cert@[bid]@[k].0).parents@[m.s2n_waiting_parent_cert@[bid]@[k].1] == ParentStatus::Certified,
+    ensures
+        n.retained_ok(), n.lo() == m.lo(),
+        forall|p: BlockId, c: BlockId| #[trigger] n.waits(p, c) ==> pre.waits(p, c) && c.0.0 >= n.lo(),
+        forall|p: BlockId, c: BlockId| #[trigger] pre.waits(p, c) && p != bid && c.0.0 >= n.lo() ==> n.waits(p, c),
+        forall|c: BlockId| #[trigger] pre.waits(bid, c) && c.0.0 >= n.lo() ==>
+            n.st(c.0).parents@.contains_key(c.1) && n.st(c.0).parents@[c.1] == ParentStatus::Certified,
+{
+    assert forall|p: BlockId, c: BlockId| #[trigger] n.waits(p, c) implies pre.waits(p, c) && c.0.0 >= n.lo() by {
+        assert(p != bid);
+        assert(m.waits(p, c));
+    }
+    assert forall|p: BlockId, c: BlockId| #[trigger] pre.waits(p, c) && p != bid && c.0.0 >= n.lo() implies n.waits(p, c) by {
+        assert(m.waits(p, c));
+    }
+    assert forall|c: BlockId| #[trigger] pre.waits(bid, c) && c.0.0 >= n.lo() implies
+        n.st(c.0).parents@.contains_key(c.1) && n.st(c.0).parents@[c.1] == ParentStatus::Certified by {
+        assert(m.waits(bid, c));
+        let k = choose|k: int| 0 <= k < m.s2n_waiting_parent_cert@[bid]@.len() && m.s2n_waiting_parent_cert@[bid]@[k] == c;
+        assert(m.s2n_waiting_parent_cert@[bid]@[k] == c);
+    }
+}
+// a block that waits is registered in a kept slot state, hence in a slot at or above the watermark
+pub proof fn lemma_waiting_slot_bound(o: &PoolImpl, p: BlockId, c: BlockId)
+    requires o.waiting_ok(), o.retained_ok(), o.waits(p, c),
+    ensures c.0.0 >= o.lo(), o.registered(c),
+{
+    assert(o.registered(c));
+    assert(o.slot_states@.contains_key(c.0));
 }
 
 // ---------------------------------------------------------------- C18: own votes of later slots
@@ -639,7 +719,7 @@ ensures
 @*/
 
 /*@ extract src/consensus/pool.rs :: impl Pool for PoolImpl/fn add_vote
-props C04 C08
+props C04 C08 C03 C06
 elide-async
 ret r
 rewrite[R4] `for cert in new_certs {` => `let mut verif_it1 = new_certs.into_iter(); loop { let cert = match verif_it1.next() { Some(x) => x, None => break };`
@@ -647,9 +727,15 @@ rewrite[R4] `for event in votor_events {` => `let mut verif_it2 = votor_events.i
 rewrite[R4] `for (slot, block_hash) in blocks_to_repair {` => `let mut verif_it3 = blocks_to_repair.into_iter(); loop { let (slot, block_hash) = match verif_it3.next() { Some(x) => x, None => break };`
 requires
         old(self).wf(),
+        old(self).waiting_ok() && old(self).retained_ok(),
         // what ValidatedVote::try_new guarantees (C09): the signer is a validator of the epoch
         (vote.vote.spec_signer().0 as int) < old(self).epoch_info.epoch.validators@.len(),
 ensures
+        // [C08.nothing_is_tracked_for_a_decided_slot C03.nothing_is_tracked_for_a_decided_slot] also when the vote completes several
+        // certificates at once and one of them decides the slot of the next
+        final(self).retained_ok(),
+        // [C06.waiting_child_is_still_registered C08.waiting_child_is_still_registered]
+        final(self).waiting_ok(),
         // [C04.slot_window_bounds C08.nothing_older_than_watermark_accepted]
         (r == Err::<(), AddVoteError>(AddVoteError::SlotOutOfBounds)) <==> old(self).out_of_bounds(vote.vote.spec_slot()),
         // [C04.slashable_reported_before_duplicate]
@@ -672,26 +758,51 @@ before `let slot = vote.slot();`
         let ghost pre = *self;
         let ghost gv = vote.vote;
         proof { broadcast use axiom_fresh_slot_state; }
+before `return Err(AddVoteError::Slashable(offence));`
+        proof {
+            let f = *self;
+            assert forall|c: BlockId| #[trigger] pre.registered(c) implies f.registered(c) by { if c.0 == slot {} }
+            lemma_waiting_ok_transfer(&pre, &f);
+        }
+before `return Err(AddVoteError::Duplicate);`
+        proof {
+            let f = *self;
+            assert forall|c: BlockId| #[trigger] pre.registered(c) implies f.registered(c) by { if c.0 == slot {} }
+            lemma_waiting_ok_transfer(&pre, &f);
+        }
+after `let (new_certs, votor_events, blocks_to_repair) = slot_state.add_vote(vote, voter_stake);`
+        proof {
+            let f = *self;
+            assert forall|c: BlockId| #[trigger] pre.registered(c) implies f.registered(c) by { if c.0 == slot {} }
+            lemma_waiting_ok_transfer(&pre, &f);
+            assert(f.retained_ok());
+        }
 loop 0
-        invariant true,
+        invariant self.waiting_ok() && self.retained_ok(),
         decreases verif_it1.rest().len(),
 loop 1
-        invariant true,
+        invariant self.waiting_ok() && self.retained_ok(),
         decreases verif_it2.rest().len(),
 loop 2
-        invariant true,
+        invariant self.waiting_ok() && self.retained_ok(),
         decreases verif_it3.rest().len(),
 @*/
 
 /*@ extract src/consensus/pool.rs :: impl PoolImpl/fn prune
-props C08
+props C08 C06
 rewrite[R8] `self.slot_states.split_off(` => `self.slot_states.verif_split_off(`
+rewrite?[R8] `self.s2n_waiting_parent_cert.retain(|_, children| { children.retain(|(slot, _)| *slot >= first_unpruned_slot); !children.is_empty() });` => `verif_retain_waiting(&mut self.s2n_waiting_parent_cert, first_unpruned_slot);`
 ensures
         // [C08.pool_retains_exactly_the_unpruned_slots]
         forall|s: Slot| #[trigger] final(self).slot_states@.contains_key(s) <==> (old(self).slot_states@.contains_key(s) && s.0 >= old(self).lo()),
         forall|s: Slot| final(self).slot_states@.contains_key(s) ==> final(self).slot_states@[s] == old(self).slot_states@[s],
         final(self).finality_tracker == old(self).finality_tracker,
-        final(self).s2n_waiting_parent_cert == old(self).s2n_waiting_parent_cert && final(self).epoch_info == old(self).epoch_info,
+        final(self).epoch_info == old(self).epoch_info,
+        // [C08.no_block_of_a_decided_slot_is_kept_waiting C06.waiting_child_is_still_registered]
+        // the blocks waiting for a parent certificate are pruned with the slot states they are registered in
+        forall|p: BlockId, c: BlockId| #[trigger] final(self).waits(p, c) ==> old(self).waits(p, c) && c.0.0 >= old(self).lo(),
+        // [C06.waiting_child_of_an_undecided_slot_is_kept]
+        forall|p: BlockId, c: BlockId| #[trigger] old(self).waits(p, c) && c.0.0 >= old(self).lo() ==> final(self).waits(p, c),
 before `self.parent_ready_tracker.prune(`
         proof {
             assert forall|s: Slot| #[trigger] self.slot_states@.contains_key(s) == self.slot_states.spec_map().contains_key(s) by {}
@@ -701,13 +812,18 @@ before `self.parent_ready_tracker.prune(`
 
 
 /*@ extract src/consensus/pool.rs :: impl Pool for PoolImpl/fn add_cert
-props C08 C03
+props C08 C03 C06
 elide-async
 ret r
 rewrite[R8] `certs .notar_fallback .iter() .any(|nf| nf.block_hash() == nf_cert.block_hash())` => `verif_any_nf_for_block(&certs.notar_fallback, nf_cert.block_hash())`
 requires
         old(self).wf(),
+        old(self).waiting_ok() && old(self).retained_ok(),
 ensures
+        // [C08.nothing_is_tracked_for_a_decided_slot]
+        final(self).retained_ok(),
+        // [C06.waiting_child_is_still_registered C08.waiting_child_is_still_registered]
+        final(self).waiting_ok(),
         // [C08.nothing_older_than_watermark_accepted]
         (r == Err::<(), AddCertError>(AddCertError::SlotOutOfBounds)) <==> old(self).out_of_bounds(cert.cert.spec_slot()),
         // [C03.cert_recorded_at_most_once_per_type]
@@ -715,7 +831,20 @@ ensures
             ==> r == Err::<(), AddCertError>(AddCertError::Duplicate),
         (!old(self).out_of_bounds(cert.cert.spec_slot()) && !old(self).st(cert.cert.spec_slot()).holds_cert_like(cert.cert)) ==> r is Ok,
 before `let slot = cert.slot();`
+        let ghost pre = *old(self);
         proof { broadcast use axiom_fresh_slot_state; }
+before `return Err(AddCertError::Duplicate);`
+        proof {
+            let f = *self;
+            assert forall|c: BlockId| #[trigger] pre.registered(c) implies f.registered(c) by { if c.0 == slot {} }
+            lemma_waiting_ok_transfer(&pre, &f);
+        }
+before `self.add_valid_cert(cert);`
+        proof {
+            let f = *self;
+            assert forall|c: BlockId| #[trigger] pre.registered(c) implies f.registered(c) by { if c.0 == slot {} }
+            lemma_waiting_ok_transfer(&pre, &f);
+        }
 @*/
 
 /*@ extract src/consensus/pool.rs :: impl PoolImpl/fn get_final_certs
@@ -780,6 +909,16 @@ pub fn verif_waiting_entry(m: &mut BTreeMap<BlockId, Vec<BlockId>>, k: BlockId) 
         !old(m)@.contains_key(k) ==> r@.len() == 0,
         final(m)@ == old(m)@.insert(k, *final(r)),
 { unimplemented!() }
+// R8: `m.retain(|_, children| { children.retain(|(slot, _)| *slot >= root); !children.is_empty() })` on the waiting-children
+// map (nested closures over &mut Vec): exactly the waiting blocks in slots >= root stay (lists that become empty are dropped)
+#[verifier::external_body]
+pub fn verif_retain_waiting(m: &mut BTreeMap<BlockId, Vec<BlockId>>, root: Slot)
+    ensures
+        forall|p: BlockId, c: BlockId| final(m)@.contains_key(p) && #[trigger] final(m)@[p]@.contains(c)
+            ==> old(m)@.contains_key(p) && old(m)@[p]@.contains(c) && c.0.0 >= root.0,
+        forall|p: BlockId, c: BlockId| old(m)@.contains_key(p) && #[trigger] old(m)@[p]@.contains(c) && c.0.0 >= root.0
+            ==> final(m)@.contains_key(p) && final(m)@[p]@.contains(c),
+{ unimplemented!() }
 #[verifier::external_body]
 pub fn verif_clone_cert(c: &Cert) -> (r: Cert) ensures r == *c { unimplemented!() }
 #[verifier::external_body]
@@ -793,13 +932,18 @@ pub fn verif_cert_block_hash(c: &Cert) -> (r: BlockHash)
 impl FinalityTracker {
     // Only the finality tracker itself changes in these calls (they borrow that one field); their contracts are proved in
     // unit `finality` and play no role for the wiring obligations below.
-    #[verifier::external_body] pub fn mark_notarized(&mut self, id: BlockId) -> (r: FinalizationEvent) { unimplemented!() }
-    #[verifier::external_body] pub fn mark_fast_finalized(&mut self, id: BlockId) -> (r: FinalizationEvent) { unimplemented!() }
-    #[verifier::external_body] pub fn mark_finalized(&mut self, slot: Slot) -> (r: FinalizationEvent) { unimplemented!() }
+    // (the watermark never moves back: PROVED for all four in unit `finality`)
+    #[verifier::external_body] pub fn mark_notarized(&mut self, id: BlockId) -> (r: FinalizationEvent)
+        ensures final(self).first_unpruned_slot.0 >= old(self).first_unpruned_slot.0 { unimplemented!() }
+    #[verifier::external_body] pub fn mark_fast_finalized(&mut self, id: BlockId) -> (r: FinalizationEvent)
+        ensures final(self).first_unpruned_slot.0 >= old(self).first_unpruned_slot.0 { unimplemented!() }
+    #[verifier::external_body] pub fn mark_finalized(&mut self, slot: Slot) -> (r: FinalizationEvent)
+        ensures final(self).first_unpruned_slot.0 >= old(self).first_unpruned_slot.0 { unimplemented!() }
     #[verifier::external_body] pub fn add_parent(&mut self, id: BlockId, parent: BlockId) -> (r: FinalizationEvent)
         requires
             // [C06.parent_in_earlier_slot C10.parent_in_earlier_slot]
             id.0.0 > parent.0.0,
+        ensures final(self).first_unpruned_slot.0 >= old(self).first_unpruned_slot.0
     { unimplemented!() }
 }
 impl ParentReadyTracker {
@@ -811,10 +955,14 @@ impl SlotState {
 /*@ stub units/slot_state/unit.rs :: src/consensus/pool/slot_state.rs :: impl SlotState/fn add_cert @*/
 /*@ stub units/slot_state/unit.rs :: src/consensus/pool/slot_state.rs :: impl SlotState/fn notify_parent_known @*/
 /*@ stub units/slot_state/unit.rs :: src/consensus/pool/slot_state.rs :: impl SlotState/fn is_notar_fallback_or_stronger @*/
-    // SlotState::notify_parent_certified WITHOUT its precondition "parent registered, state well formed" (proved with it in unit
-    // slot_state): that the waiting child is still registered when its parent's certificate arrives is ASSUMED here.
+    // SlotState::notify_parent_certified (contract proved in unit slot_state) with its panic site - panic!("parent not known")
+    // unless the block was registered - as a precondition; of its other precondition, the slot state's own well-formedness,
+    // only this part is carried through the pool functions below, the rest stays ASSUMED here.
     #[verifier::external_body]
     pub fn verif_notify_parent_certified(&mut self, hash: BlockHash) -> (r: Option<Either<PoolEvent, BlockId>>)
+        requires
+            // [C06.waiting_child_is_still_registered C08.waiting_child_is_still_registered C03.waiting_child_is_still_registered]
+            old(self).parents@.contains_key(hash),
         ensures
             final(self).parents@ == old(self).parents@.insert(hash, ParentStatus::Certified),
             final(self).certificates == old(self).certificates,
@@ -824,22 +972,53 @@ impl PoolImpl {
 /*@ extract src/consensus/pool.rs :: impl PoolImpl/fn handle_finalization
 props C06 C08
 elide-async
+requires
+        old(self).waiting_ok(),
 ensures
-        // the pool-level follow-up of a finalization (parent-ready events, pruning of decided slots) does not touch the map of
-        // blocks waiting for a parent certificate
-        final(self).s2n_waiting_parent_cert == old(self).s2n_waiting_parent_cert,
         final(self).epoch_info == old(self).epoch_info,
+        final(self).finality_tracker == old(self).finality_tracker,
+        // the pool-level follow-up of a finalization (parent-ready events, pruning of decided slots):
+        // [C08.pool_retains_exactly_the_unpruned_slots]
+        forall|s: Slot| #[trigger] final(self).slot_states@.contains_key(s) <==> (old(self).slot_states@.contains_key(s) && s.0 >= old(self).lo()),
+        forall|s: Slot| final(self).slot_states@.contains_key(s) ==> final(self).slot_states@[s] == old(self).slot_states@[s],
+        final(self).retained_ok(),
+        // [C08.no_block_of_a_decided_slot_is_kept_waiting C06.waiting_child_is_still_registered]
+        forall|p: BlockId, c: BlockId| #[trigger] final(self).waits(p, c) ==> old(self).waits(p, c) && c.0.0 >= old(self).lo(),
+        final(self).waiting_ok(),
+        // [C06.waiting_child_of_an_undecided_slot_is_kept]
+        forall|p: BlockId, c: BlockId| #[trigger] old(self).waits(p, c) && c.0.0 >= old(self).lo() ==> final(self).waits(p, c),
+before `let new_parents_ready = self.parent_ready_tracker.handle_finalization(event);`
+        let ghost pre = *old(self);
+before `self.prune();`
+        let ghost mid = *self;
+after `self.prune();`
+        proof {
+            assert forall|p: BlockId, c: BlockId| #[trigger] pre.waits(p, c) && c.0.0 >= pre.lo() implies self.waits(p, c) by {
+                assert(mid.waits(p, c));
+            }
+            assert forall|p: BlockId, c: BlockId| #[trigger] self.waits(p, c) implies self.registered(c) by {
+                assert(pre.waits(p, c) && c.0.0 >= pre.lo());
+                assert(pre.registered(c));
+                assert(self.slot_states@.contains_key(c.0));
+            }
+        }
 @*/
     #[verifier::external_body]
     pub fn send_parent_ready_events(&self, parents: SmallVec<[(Slot, BlockId); 1]>) { unimplemented!() }
 
 /*@ extract src/consensus/pool.rs :: impl PoolImpl/fn notify_waiting_children
-props C06
+props C06 C08
 elide-async
 rewrite[R4] `for (child_slot, child_hash) in children {` => `let mut verif_c: usize = 0; while verif_c < children.len() { let (child_slot, child_hash) = verif_clone_block_id(&children[verif_c]); verif_c += 1;`
 rewrite*[R8] `.notify_parent_certified(` => `.verif_notify_parent_certified(`
+requires
+        old(self).waiting_ok(),
 ensures
         final(self).epoch_info == old(self).epoch_info,
+        final(self).finality_tracker == old(self).finality_tracker,
+        // [C08.no_state_is_recreated_for_a_decided_slot] telling the waiting blocks touches only slot states the pool keeps
+        final(self).extends(old(self)),
+        final(self).waiting_ok(),
         // [C06.certifying_cert_releases_the_waiting_children]
         !final(self).s2n_waiting_parent_cert@.contains_key(*block_id),
         // [C06.other_waiting_children_untouched]
@@ -854,6 +1033,17 @@ ensures
 before `let Some(children) = self.s2n_waiting_parent_cert.remove(block_id) else {`
         let ghost pre = *old(self);
         proof { broadcast use axiom_fresh_slot_state; }
+before `return;`
+        proof {
+            assert forall|p: BlockId, c: BlockId| #[trigger] self.waits(p, c) implies self.registered(c) by { assert(pre.waits(p, c)); }
+        }
+blockend `let Some(children) = self.s2n_waiting_parent_cert.remove(block_id) else {`
+        proof {
+            assert forall|p: BlockId, c: BlockId| #[trigger] self.waits(p, c) implies self.registered(c) by {
+                assert(pre.waits(p, c));
+                assert(pre.registered(c));
+            }
+        }
 loop 0
         invariant
             pre == *old(self),
@@ -861,14 +1051,28 @@ loop 0
             pre.s2n_waiting_parent_cert@.contains_key(*block_id) && children@ == pre.s2n_waiting_parent_cert@[*block_id]@,
             self.s2n_waiting_parent_cert@ == pre.s2n_waiting_parent_cert@.remove(*block_id),
             self.epoch_info == pre.epoch_info,
+            self.finality_tracker == pre.finality_tracker,
+            pre.waiting_ok(),
+            self.extends(&pre),
             forall|k: int| 0 <= k < verif_c ==> self.st((#[trigger] children@[k]).0).parents@.contains_key(children@[k].1)
                 && self.st(children@[k].0).parents@[children@[k].1] == ParentStatus::Certified,
             forall|sl: Slot| (#[trigger] self.st(sl)).certificates == pre.st(sl).certificates,
         decreases children@.len() - verif_c,
 before `let Some(output) = self .slot_state(child_slot) .verif_notify_parent_certified(child_hash) else {`
         let ghost bef = *self;
+        proof {
+            assert(children@.contains(children@[verif_c - 1]));
+            assert(pre.waits(*block_id, (child_slot, child_hash)));
+            assert(pre.registered((child_slot, child_hash)));
+            assert(self.registered((child_slot, child_hash)));
+        }
 before `continue;`
         proof {
+            assert forall|c: BlockId| #[trigger] pre.registered(c) implies self.registered(c) by {
+                assert(bef.registered(c));
+                if c.0 == child_slot {}
+            }
+            assert(self.extends(&pre));
             assert forall|sl: Slot| (#[trigger] self.st(sl)).certificates == bef.st(sl).certificates by { if sl == child_slot {} }
             assert forall|k: int| 0 <= k < verif_c implies self.st((#[trigger] children@[k]).0).parents@.contains_key(children@[k].1)
                 && self.st(children@[k].0).parents@[children@[k].1] == ParentStatus::Certified by {
@@ -877,6 +1081,11 @@ before `continue;`
         }
 blockend `let Some(output) = self .slot_state(child_slot) .verif_notify_parent_certified(child_hash) else {`
         proof {
+            assert forall|c: BlockId| #[trigger] pre.registered(c) implies self.registered(c) by {
+                assert(bef.registered(c));
+                if c.0 == child_slot {}
+            }
+            assert(self.extends(&pre));
             assert forall|sl: Slot| (#[trigger] self.st(sl)).certificates == bef.st(sl).certificates by { if sl == child_slot {} }
             assert forall|k: int| 0 <= k < verif_c implies self.st((#[trigger] children@[k]).0).parents@.contains_key(children@[k].1)
                 && self.st(children@[k].0).parents@[children@[k].1] == ParentStatus::Certified by {
@@ -886,45 +1095,179 @@ blockend `let Some(output) = self .slot_state(child_slot) .verif_notify_parent_c
 @*/
 
 /*@ extract src/consensus/pool.rs :: impl PoolImpl/fn add_valid_cert
-props C06
+props C06 C08 C03
 elide-async
 rewrite*[R9] `cert.clone()` => `verif_clone_cert(&cert)`
 rewrite*[R9] `block_id.clone()` => `verif_clone_block_id(&block_id)`
 rewrite[R8] `cert .block_hash() .cloned() .expect("notar(-fallback) cert always references a block")` => `verif_cert_block_hash(&cert)`
+requires
+        old(self).waiting_ok() && old(self).retained_ok(),
 ensures
         final(self).epoch_info == old(self).epoch_info,
+        final(self).lo() >= old(self).lo(),
+        // [C08.nothing_is_tracked_for_a_decided_slot C03.nothing_is_tracked_for_a_decided_slot] whatever the certificate decides
+        // and in whatever batch it was completed: afterwards no slot state (and no waiting block) below the watermark is kept
+        final(self).retained_ok(),
+        // [C06.waiting_child_is_still_registered C08.waiting_child_is_still_registered]
+        final(self).waiting_ok(),
         // [C06.certifying_cert_releases_the_waiting_children] whichever certificate certifies the parent (notar, notar-fallback
-        // or fast-final), no block is left waiting for it
-        cert_certifies(cert) matches Some(b) ==> !final(self).s2n_waiting_parent_cert@.contains_key(b),
-        // [C06.other_waiting_children_untouched]
-        forall|p: BlockId| cert_certifies(cert) != Some(p) ==> (#[trigger] final(self).s2n_waiting_parent_cert@.contains_key(p) <==> old(self).s2n_waiting_parent_cert@.contains_key(p))
-            && (final(self).s2n_waiting_parent_cert@.contains_key(p) ==> final(self).s2n_waiting_parent_cert@[p] == old(self).s2n_waiting_parent_cert@[p]),
-        // [C06.every_waiting_child_is_notified]
-        (cert_certifies(cert) matches Some(b) && old(self).s2n_waiting_parent_cert@.contains_key(b)) ==> forall|k: int| 0 <= k < old(self).s2n_waiting_parent_cert@[cert_certifies(cert)->0]@.len() ==>
-            final(self).st((#[trigger] old(self).s2n_waiting_parent_cert@[cert_certifies(cert)->0]@[k]).0).parents@.contains_key(old(self).s2n_waiting_parent_cert@[cert_certifies(cert)->0]@[k].1)
-            && final(self).st(old(self).s2n_waiting_parent_cert@[cert_certifies(cert)->0]@[k].0).parents@[old(self).s2n_waiting_parent_cert@[cert_certifies(cert)->0]@[k].1] == ParentStatus::Certified,
+        // or fast-final) of a slot that is not decided yet, no block is left waiting for it
+        (cert_certifies(cert) is Some && (cert_certifies(cert)->0).0.0 >= old(self).lo()) ==> !final(self).s2n_waiting_parent_cert@.contains_key(cert_certifies(cert)->0),
+        // [C06.other_waiting_children_untouched C08.no_block_of_a_decided_slot_is_kept_waiting] the other waiting blocks stay,
+        // except those whose slot the certificate decided
+        forall|p: BlockId, c: BlockId| #[trigger] final(self).waits(p, c) ==> old(self).waits(p, c) && c.0.0 >= final(self).lo(),
+        forall|p: BlockId, c: BlockId| #[trigger] old(self).waits(p, c) && cert_certifies(cert) != Some(p) && c.0.0 >= final(self).lo() ==> final(self).waits(p, c),
+        // [C06.every_waiting_child_is_notified] every block of a still undecided slot that waited for this parent is told
+        forall|c: BlockId| (cert_certifies(cert) is Some && (cert_certifies(cert)->0).0.0 >= old(self).lo()
+                && #[trigger] old(self).waits(cert_certifies(cert)->0, c) && c.0.0 >= final(self).lo()) ==>
+            final(self).st(c.0).parents@.contains_key(c.1) && final(self).st(c.0).parents@[c.1] == ParentStatus::Certified,
+before `let slot = cert.slot();`
+        let ghost pre = *old(self);
+        proof {
+            broadcast use axiom_fresh_slot_state;
+            // (used where a certificate of an already decided slot is only passed on)
+            assert forall|p: BlockId, c: BlockId| #[trigger] pre.waits(p, c) implies c.0.0 >= pre.lo() by { lemma_waiting_slot_bound(&pre, p, c); }
+        }
+after `self.slot_state(slot).add_cert(verif_clone_cert(&cert));`
+        let ghost a = *self;
+        proof {
+            assert forall|c: BlockId| #[trigger] pre.registered(c) implies a.registered(c) by { if c.0 == slot {} }
+            lemma_waiting_ok_transfer(&pre, &a);
+            // [C08.nothing_is_tracked_for_a_decided_slot C03.nothing_is_tracked_for_a_decided_slot]
+            assert(a.retained_ok());
+        }
+before `self.handle_finalization(finalization_event);#0`
+        let ghost b = *self;
+        proof { lemma_waiting_ok_transfer(&a, &b); }
+after `self.handle_finalization(finalization_event);#0`
+        proof {
+            assert forall|p: BlockId, c: BlockId| #[trigger] self.waits(p, c) implies pre.waits(p, c) && c.0.0 >= self.lo() by { assert(b.waits(p, c)); }
+            assert forall|p: BlockId, c: BlockId| #[trigger] pre.waits(p, c) && c.0.0 >= self.lo() implies self.waits(p, c) by { assert(b.waits(p, c)); }
+        }
+before `self.notify_waiting_children(&block_id);#0`
+        let ghost m = *self;
+        proof {
+            assert(m.waiting_ok() && m.retained_ok() && m.lo() >= pre.lo());
+            assert forall|p: BlockId, c: BlockId| #[trigger] m.waits(p, c) implies pre.waits(p, c) && c.0.0 >= m.lo() by {
+                if !(cert is Notar) { assert(a.waits(p, c)); lemma_waiting_slot_bound(&pre, p, c); }
+            }
+            assert forall|p: BlockId, c: BlockId| #[trigger] pre.waits(p, c) && c.0.0 >= m.lo() implies m.waits(p, c) by {
+                if !(cert is Notar) { assert(a.waits(p, c)); }
+            }
+        }
+after `self.notify_waiting_children(&block_id);#0`
+        let ghost n = *self;
+        proof { lemma_after_notify(&pre, &m, &n, block_id); }
+before `self.handle_finalization(finalization_event);#1`
+        let ghost b = *self;
+        proof { lemma_waiting_ok_transfer(&a, &b); }
+before `self.notify_waiting_children(&block_id);#1`
+        let ghost m = *self;
+        proof {
+            assert forall|p: BlockId, c: BlockId| #[trigger] m.waits(p, c) implies pre.waits(p, c) && c.0.0 >= m.lo() by { assert(b.waits(p, c)); }
+            assert forall|p: BlockId, c: BlockId| #[trigger] pre.waits(p, c) && c.0.0 >= m.lo() implies m.waits(p, c) by { assert(b.waits(p, c)); }
+        }
+after `self.notify_waiting_children(&block_id);#1`
+        let ghost n = *self;
+        proof { lemma_after_notify(&pre, &m, &n, block_id); }
+before `self.handle_finalization(finalization_event);#2`
+        let ghost b = *self;
+        proof { lemma_waiting_ok_transfer(&a, &b); }
+after `self.handle_finalization(finalization_event);#2`
+        proof {
+            assert forall|p: BlockId, c: BlockId| #[trigger] self.waits(p, c) implies pre.waits(p, c) && c.0.0 >= self.lo() by { assert(b.waits(p, c)); }
+            assert forall|p: BlockId, c: BlockId| #[trigger] pre.waits(p, c) && c.0.0 >= self.lo() implies self.waits(p, c) by { assert(b.waits(p, c)); }
+        }
+after `self.send_repair((slot, block_hash));`
+        proof {
+            let f = *self;
+            lemma_waiting_ok_transfer(&n, &f);
+            assert forall|p: BlockId, c: BlockId| #[trigger] f.waits(p, c) implies pre.waits(p, c) && c.0.0 >= f.lo() by { assert(n.waits(p, c)); }
+            assert forall|p: BlockId, c: BlockId| #[trigger] pre.waits(p, c) && cert_certifies(cert) != Some(p) && c.0.0 >= f.lo() implies f.waits(p, c) by { assert(n.waits(p, c)); }
+        }
+after `self.send_parent_ready_events(new_parents_ready);#1`
+        proof {
+            let f = *self;
+            lemma_waiting_ok_transfer(&a, &f);
+            assert forall|p: BlockId, c: BlockId| #[trigger] self.waits(p, c) implies pre.waits(p, c) && c.0.0 >= self.lo() by { assert(a.waits(p, c)); lemma_waiting_slot_bound(&pre, p, c); }
+            assert forall|p: BlockId, c: BlockId| #[trigger] pre.waits(p, c) && c.0.0 >= self.lo() implies self.waits(p, c) by { assert(a.waits(p, c)); }
+        }
 @*/
 
 /*@ extract src/consensus/pool.rs :: impl Pool for PoolImpl/fn add_block
-props C06 C10
+props C06 C10 C08
 elide-async
 rewrite*[R9] `block_id.clone()` => `verif_clone_block_id(&block_id)`
 rewrite*[R9] `parent_id.clone()` => `verif_clone_block_id(&parent_id)`
 rewrite*[R8] `.notify_parent_certified(` => `.verif_notify_parent_certified(`
-rewrite[R5] `self.s2n_waiting_parent_cert .entry(parent_id) .or_default() .push(block_id);` => `let ghost pw = self.s2n_waiting_parent_cert@; let verif_w = verif_waiting_entry(&mut self.s2n_waiting_parent_cert, parent_id); let ghost w0 = verif_w@; verif_w.push(block_id); proof { assert(self.s2n_waiting_parent_cert@[parent_id]@ == w0.push(block_id)); assert(w0.push(block_id)[w0.len() as int] == block_id); assert forall|c: BlockId| w0.contains(c) implies w0.push(block_id).contains(c) by { let i = choose|i: int| 0 <= i < w0.len() && w0[i] == c; assert(w0.push(block_id)[i] == c); } }`
+rewrite[R5] `self.s2n_waiting_parent_cert .entry(parent_id) .or_default() .push(block_id);` => `let ghost pw = self.s2n_waiting_parent_cert@; let verif_w = verif_waiting_entry(&mut self.s2n_waiting_parent_cert, parent_id); let ghost w0 = verif_w@; verif_w.push(block_id); proof { assert(self.s2n_waiting_parent_cert@[parent_id]@ == w0.push(block_id)); assert(w0.push(block_id)[w0.len() as int] == block_id); assert forall|c: BlockId| w0.contains(c) implies w0.push(block_id).contains(c) by { let i = choose|i: int| 0 <= i < w0.len() && w0[i] == c; assert(w0.push(block_id)[i] == c); } assert forall|c: BlockId| w0.push(block_id).contains(c) implies w0.contains(c) || c == block_id by { let i = choose|i: int| 0 <= i < w0.push(block_id).len() && w0.push(block_id)[i] == c; if i < w0.len() { assert(w0[i] == c); } } }`
 requires
         // the caller announces only blocks whose parent is in an earlier slot (proved for blockstore and repair: C13, C14)
         block_id.0.0 > parent_id.0.0,
+        old(self).waiting_ok() && old(self).retained_ok(),
 ensures
-        // [C06.waiting_child_is_never_dropped] registering a block never makes another block stop waiting for its parent
-        forall|p: BlockId, c: BlockId| old(self).s2n_waiting_parent_cert@.contains_key(p) && #[trigger] old(self).s2n_waiting_parent_cert@[p]@.contains(c)
-            ==> final(self).s2n_waiting_parent_cert@.contains_key(p) && final(self).s2n_waiting_parent_cert@[p]@.contains(c),
+        final(self).epoch_info == old(self).epoch_info,
+        final(self).lo() >= old(self).lo(),
+        // [C08.nothing_is_tracked_for_a_decided_slot] also when the new parent link decides further slots, and for a block that
+        // arrives (late, or by repair) for a slot that is decided already
+        final(self).retained_ok(),
+        // [C06.waiting_child_is_still_registered C08.waiting_child_is_still_registered]
+        final(self).waiting_ok(),
+        // [C06.waiting_child_is_never_dropped] registering a block never makes another block of an undecided slot stop waiting for
+        // its parent
+        forall|p: BlockId, c: BlockId| #[trigger] old(self).waits(p, c) && c.0.0 >= final(self).lo() ==> final(self).waits(p, c),
+        // [C08.no_block_of_a_decided_slot_is_kept_waiting] and nothing but this block starts waiting
+        forall|p: BlockId, c: BlockId| #[trigger] final(self).waits(p, c) ==> c.0.0 >= final(self).lo() && (old(self).waits(p, c) || (p == parent_id && c == block_id)),
         // [C06.child_of_uncertified_parent_waits]
-        !old(self).certified(parent_id) ==> final(self).s2n_waiting_parent_cert@.contains_key(parent_id)
-            && final(self).s2n_waiting_parent_cert@[parent_id]@.contains(block_id),
+        (block_id.0.0 >= final(self).lo() && !old(self).certified(parent_id)) ==> final(self).waits(parent_id, block_id),
         // [C06.child_of_certified_parent_is_told_at_once]
-        old(self).certified(parent_id) ==> final(self).st(block_id.0).parents@.contains_key(block_id.1)
-            && final(self).st(block_id.0).parents@[block_id.1] == ParentStatus::Certified,
+        (block_id.0.0 >= final(self).lo() && old(self).certified(parent_id) && parent_id.0.0 >= final(self).lo()) ==>
+            final(self).st(block_id.0).parents@.contains_key(block_id.1) && final(self).st(block_id.0).parents@[block_id.1] == ParentStatus::Certified,
+        // [C08.child_of_certified_parent_is_not_kept_waiting] (it would never be released: certificates for the parent are duplicates)
+        (old(self).certified(parent_id) && parent_id.0.0 >= final(self).lo() && !old(self).waits(parent_id, block_id)) ==> !final(self).waits(parent_id, block_id),
+before `vassert(block_id.0 > parent_id.0);`
+        let ghost pre = *old(self);
+        proof { broadcast use axiom_fresh_slot_state; }
+after `.add_parent(verif_clone_block_id(&block_id), verif_clone_block_id(&parent_id));`
+        let ghost b = *self;
+        proof { lemma_waiting_ok_transfer(&pre, &b); }
+before `self.slot_state(*slot).notify_parent_known(block_hash);`
+        let ghost h = *self;
+        proof {
+            assert forall|p: BlockId, c: BlockId| #[trigger] h.waits(p, c) implies pre.waits(p, c) && c.0.0 >= h.lo() by { assert(b.waits(p, c)); }
+            assert forall|p: BlockId, c: BlockId| #[trigger] pre.waits(p, c) && c.0.0 >= h.lo() implies h.waits(p, c) by { assert(b.waits(p, c)); }
+        }
+after `self.slot_state(*slot).notify_parent_known(block_hash);`
+        let ghost k = *self;
+        proof {
+            assert forall|c: BlockId| #[trigger] h.registered(c) implies k.registered(c) by { if c.0 == *slot {} }
+            lemma_waiting_ok_transfer(&h, &k);
+            assert(k.retained_ok());
+            assert(k.registered(block_id));
+        }
+blockafter `match output {`
+        proof {
+            let f = *self;
+            assert forall|c: BlockId| #[trigger] k.registered(c) implies f.registered(c) by { if c.0 == *slot {} }
+            lemma_waiting_ok_transfer(&k, &f);
+            assert(f.retained_ok());
+            assert forall|p: BlockId, c: BlockId| #[trigger] f.waits(p, c) implies c.0.0 >= f.lo() && pre.waits(p, c) by { assert(k.waits(p, c)); assert(h.waits(p, c)); }
+            assert forall|p: BlockId, c: BlockId| #[trigger] pre.waits(p, c) && c.0.0 >= f.lo() implies f.waits(p, c) by { assert(h.waits(p, c)); assert(k.waits(p, c)); }
+        }
+blockend `vassert(block_id.0 > parent_id.0);`
+        proof {
+            let f = *self;
+            assert forall|p: BlockId, c: BlockId| #[trigger] f.waits(p, c) implies f.registered(c) && c.0.0 >= f.lo() && (pre.waits(p, c) || (p == parent_id && c == block_id)) by {
+                if p == parent_id {
+                    if c != block_id { assert(w0.contains(c)); assert(k.waits(p, c)); assert(h.waits(p, c)); lemma_waiting_slot_bound(&k, p, c); }
+                } else { assert(k.waits(p, c)); assert(h.waits(p, c)); lemma_waiting_slot_bound(&k, p, c); }
+            }
+            assert forall|p: BlockId, c: BlockId| #[trigger] pre.waits(p, c) && c.0.0 >= f.lo() implies f.waits(p, c) by {
+                assert(h.waits(p, c)); assert(k.waits(p, c));
+                if p == parent_id { assert(w0.contains(c)); }
+            }
+            assert(f.waits(parent_id, block_id));
+        }
 @*/
 }
 
@@ -934,6 +1277,7 @@ impl PoolImpl {
 as canary_prune
 expect-fail
 rewrite[R8] `self.slot_states.split_off(` => `self.slot_states.verif_split_off(`
+rewrite?[R8] `self.s2n_waiting_parent_cert.retain(|_, children| { children.retain(|(slot, _)| *slot >= first_unpruned_slot); !children.is_empty() });` => `verif_retain_waiting(&mut self.s2n_waiting_parent_cert, first_unpruned_slot);`
 ensures
         final(self).slot_states@ == old(self).slot_states@,
 @*/
